@@ -112,6 +112,13 @@ def s_range(*a):
     return _range(*a)
 
 
+def s_len(o):
+    f = getattr(type(o), "__symlen__", None)
+    if f is not None:
+        return f(o)
+    return _len(o)
+
+
 def s_print(*a, **k):
     PRINT_LOG.append(a)
 
@@ -143,6 +150,7 @@ SHADOW.update({
     "int": ShadowInt,
     "isinstance": s_isinstance,
     "range": s_range,
+    "len": s_len,
     "print": s_print,
     "abs": s_abs,
     "round": s_round,
